@@ -69,6 +69,8 @@ def lean_replay(tr, sid, work_name="trace", stats=None, certify=True, issues=Non
         return "OK empty", []
     th = certify_theory_clauses(tr, sid, stats) if certify else None
     lines = tr.lean_smt_input(sid, th, issues)
+    if not certify:
+        lines = ["O trust-theory"] + lines        # C12 mode: theory clauses are taken as given
     p = common.WORK / f"{work_name}-{os.getpid()}.in"
     p.write_text("\n".join(lines) + "\n")
     r = common.sh([str(common.model_exe()), "smt", str(p)])
